@@ -96,14 +96,21 @@ class ValidatorSuite(Suite):
                 ops.append({"op": "validate", "seq": [rng.choice(items) for _ in range(3)]})
         n = {"quick": 6000, "thorough": 200000, "search": 3000}[tier]
         for _ in range(n):
-            ents = gen.rand_tree(rng, rng.choice([5, 10, 30, 60]), 5)
+            ents = gen.deep_tree(rng) if rng.random() < 0.25 else gen.rand_tree(rng, rng.choice([5, 10, 30, 60]), 5)
             seq = seq_from_tree(rng, ents)
             m = rng.random()
             if seq and m < 0.7:
                 for _ in range(rng.randint(1, 2)):
                     k = rng.randrange(len(seq))
-                    mut = rng.randrange(7)
-                    if mut == 0 and len(seq) > 1:
+                    mut = rng.randrange(8)
+                    if mut == 7 and len(seq) > 1:
+                        # swap two adjacent elements / duplicate the previous one late in the sequence (deep positions)
+                        k = rng.randrange(max(1, len(seq) - 6), len(seq))
+                        if rng.random() < 0.5:
+                            seq[k - 1], seq[k] = seq[k], seq[k - 1]
+                        else:
+                            seq.append(list(seq[rng.randrange(max(0, len(seq) - 4), len(seq))]))
+                    elif mut == 0 and len(seq) > 1:
                         j = rng.randrange(len(seq))
                         seq[k], seq[j] = seq[j], seq[k]
                     elif mut == 1:
